@@ -9,7 +9,7 @@ recursion is well defined - arcovar_marple / modcovar_marple.  N up to 128: ObsC
 import numpy as np
 
 from .. import core, material as M, tlc, obs
-from ..kern_util import call_guard, cmp_vec, cmp_scalar, entry_variants, live_object_dev
+from ..kern_util import fresh, call_guard, cmp_vec, cmp_scalar, entry_variants, live_object_dev, np_int
 
 
 def finite(*vals):
@@ -50,7 +50,7 @@ def replay_state(chk, st, cplx, expo):
             counter = getattr(chk, '_c14_counter', 0)
             chk._c14_counter = counter + 1
             for ename, xin, tol in entry_variants(xa, cplx, counter, full=chk.tier != 'quick'):
-                ok, res = call_guard(fn, xin if isinstance(xin, list) else xin.copy(), p)
+                ok, res = call_guard(fn, fresh(xin), np_int(p, counter))
                 chk.evaluations += 1
                 tol = max(tol, 1e-7) if tol < 1e-6 else 1e-3      # single precision least squares
                 if not ok:
@@ -71,7 +71,7 @@ def replay_state(chk, st, cplx, expo):
                     chk.violation('C14:%s:%s:values' % (cls.__name__, mode), '%s(x=%s, %d): %s' % (cls.__name__, xa.tolist(), p, bad), case)
             # fast (Marple) recursions: defined when every lower-order problem is well posed
             if generic and expE > 0:
-                ok, res = call_guard(fast, xa.astype(complex), p)
+                ok, res = call_guard(fast, xa.astype(complex), np_int(p, counter + 1))
                 if ok and which == 'cov':
                     af, pf = res[0], res[1]
                     perr = expE / (N - p)
